@@ -110,7 +110,8 @@ func (e *Engine) VerifyFuncCase(key string, targs []string, cf *CaseFix) (rep *F
 	st := &State{pc: "true", vars: map[types.Object]Val{}, heap: map[string]string{}, epoch: 0}
 	c.scanBoxed(fi.Pkg.TypesInfo, fi.Decl.Body)
 	c.declConst("alloc!0", "Int")
-	c.facts = append(c.facts, "(> alloc!0 0)")
+	// addresses live in the 48-bit user address space of amd64: pointer arithmetic on them does not wrap
+	c.facts = append(c.facts, "(> alloc!0 0)", "(< alloc!0 281474976710656)")
 	st.alloc = "alloc!0"
 	bind := func(obj types.Object, name string) {
 		if obj == nil {
